@@ -393,7 +393,7 @@ theorem fold_children (wd : Nat → Nat) (clk : String) (L : Low χ) (k : Nat) (
       | reg r =>
         simp only [List.flatMap_cons, List.foldl_append, up_items_g, gchildItems, Low.childPieces, List.foldl_cons, List.foldl_nil]
         rw [step_reg wd d (fuel + k + 1) p nm clk r (hfind (regModuleH wd r) (by
-          simp only [List.flatMap_cons, List.mem_append, up_mods_g, gchildMods, List.mem_singleton]; exact Or.inl rfl)),
+          simp [up_mods_g, gchildMods])),
           ih i0 _ hfind' hp', addC_addC, hj]
     | sub iname body =>
       have hsub : ∀ m, m ∈ L.modOf wd clk body :: body.children.flatMap L.mods → findModule d m.name = some m :=
